@@ -67,6 +67,12 @@ func c09Gen(t *rapid.T) c09Scenario {
 			}
 			tx.Faults[key] = rapid.SampledFrom([]string{"T", "P"}).Draw(t, "class")
 		}
+		switch rapid.IntRange(0, 9).Draw(t, "bodyfault") {
+		case 0:
+			tx.Faults["bodyopen"] = "io"
+		case 1:
+			tx.Faults["bodyread"] = fmt.Sprint(rapid.SampledFrom([]int{0, 1, 3, 5}).Draw(t, "bodyread_after"))
+		}
 		sc.Txs = append(sc.Txs, tx)
 	}
 	return sc
@@ -75,11 +81,15 @@ func c09Gen(t *rapid.T) c09Scenario {
 type c09Collector struct {
 	mu   sync.Mutex
 	keys []string
+	ok   []string // keys reported without an error
 }
 
 func (c *c09Collector) SetStatus(rcpt string, err error) {
 	c.mu.Lock()
 	c.keys = append(c.keys, rcpt)
+	if err == nil {
+		c.ok = append(c.ok, rcpt)
+	}
 	c.mu.Unlock()
 }
 
@@ -155,7 +165,7 @@ func c09Run(sc c09Scenario) (vs []ev.V) {
 		}
 		col := &c09Collector{}
 		if len(accepted) > 0 {
-			d.(module.PartialDelivery).BodyNonAtomic(ctx, col, hdr, buffer.MemoryBuffer{Slice: []byte("body\r\n")})
+			d.(module.PartialDelivery).BodyNonAtomic(ctx, col, hdr, c09Body(tx.Faults))
 		}
 		d.Commit(ctx)
 		if ti > 0 && hop.Sessions() == before {
@@ -166,6 +176,9 @@ func c09Run(sc c09Scenario) (vs []ev.V) {
 				vs = append(vs, ev.Vf("status:for-unaccepted", "transaction %d: no recipient was accepted but results were reported for %v", ti, col.keys))
 			}
 			continue
+		}
+		if (tx.Faults["bodyopen"] != "" || tx.Faults["bodyread"] != "") && len(col.ok) > 0 {
+			vs = append(vs, ev.Vf("status:success-although-body-unreadable", "transaction %d: the message body could not be read (%v) but success was reported for %q", ti, tx.Faults, col.ok))
 		}
 		got := append([]string(nil), col.keys...)
 		want := append([]string(nil), accepted...)
@@ -203,6 +216,18 @@ func c09Run(sc c09Scenario) (vs []ev.V) {
 }
 
 var c09Reused bool
+
+// c09Body: the message body, stored in a medium that fails when the transaction says so.
+func c09Body(faults map[string]string) buffer.Buffer {
+	b := verifx.FaultyBuffer{Data: []byte("body\r\n"), ReadErrAfter: -1}
+	if faults["bodyopen"] != "" {
+		b.OpenErr = verifx.ErrBodyOpen
+	}
+	if v, ok := faults["bodyread"]; ok {
+		fmt.Sscan(v, &b.ReadErrAfter)
+	}
+	return b
+}
 
 func c09Set(xs []string) []string {
 	m := map[string]bool{}
